@@ -209,7 +209,11 @@ def r5(fx):
         n = iso.size_of(v)
         stage1, final, used = _build(fx, bld, v)
         lay = iso.layout(v)
-        need(len(final) == n and all(len(r) == n for r in final), f'v{v}: matrix is not {n}x{n}')
+        shape_ok = len(final) == n and all(len(r) == n for r in final)
+        if not shape_ok:
+            yield Ob(f'v{v} matrix is {n} x {n} after the function-pattern writers', False, where, anchors['make_matrix'].lineno,
+                     f'{len(final)} rows of widths {sorted({len(r) for r in final})}', f'{n} rows of width {n}', True)
+            continue
         bad = {}      # kind -> first few mismatches
         for r in range(n):
             for c in range(n):
